@@ -14,6 +14,9 @@ def jobs(tier):
     import importlib.util as _u, os as _o
     pth=_o.path.join(_o.path.dirname(_o.path.dirname(_o.path.abspath(__file__))),'block','jobs_common.py'); sp=_u.spec_from_file_location('blk',pth); m=_u.module_from_spec(sp); sp.loader.exec_module(m)
     J+=[j for j in m.blockin_jobs(tier) if j.name.startswith('blockin-step')]
+    import sys; sys.path.insert(0,_o.path.dirname(_o.path.dirname(_o.path.abspath(__file__))))
+    from jobs_lib import vf as _vf
+    J+=[j for j in _vf(tier,'C04')]
     return J
-CLAIM={'text':'Inductive-step model checking of the real encoder block scheduler (vorbis_analysis_blockout) from every state satisfying the invariant I_enc, plus (as they are added) the decoder-side step and base cases; and of the decoder accumulator (vorbis_synthesis_blockin: a block exposes (lW/4+W/4)>>hs samples, the eos block is trimmed to its granule position, granule tracking); decides the sample-count/granule bookkeeping for every N and every write partition at the listed block-size pairs.',
+CLAIM={'text':'Inductive-step model checking of the real encoder block scheduler (vorbis_analysis_blockout) from every state satisfying the invariant I_enc, plus (as they are added) the decoder-side step and base cases; and of the decoder accumulator (vorbis_synthesis_blockin: a block exposes (lW/4+W/4)>>hs samples, the eos block is trimmed to its granule position, granule tracking); the end-of-link page search of vorbisfile returns offset, serial number and granule position of ONE page (F-prevserial: what ov_pcm_total is computed from, also in multiplexed links); decides the sample-count/granule bookkeeping for every N and every write partition at the listed block-size pairs.',
  'note':'Trusted: CBMC C semantics; psychoacoustic decisions (_ve_envelope_search/_mark) modelled as arbitrary; float DSP is outside; invariant I_enc as written in harness/C04/enc_step.c. Bounds: concrete block-size pairs per job, ghost positions < 2^40.'}
